@@ -163,7 +163,7 @@ private:
                 }
                 else if( ch == EOF || !isspace( ch ))
                 {
-                    return;
+                    io_error( "Unexpected end of data or character in pnm file." );
                 }
             }
 
